@@ -988,6 +988,38 @@ def inline_pure_multi(body):
     return body
 
 
+def coalesce_copies(body, params=()):
+    """`x = y` at the top level of the list, where y is a local all of whose bindings come earlier in the list and
+    which is not mentioned afterwards, and x is not mentioned before: y is renamed x everywhere and the copy is
+    dropped (a helper's result variable spliced into its caller)."""
+    body = list(body)
+    changed = True
+    while changed:
+        changed = False
+        for i, s in enumerate(body):
+            if not (isinstance(s, ast.Assign) and len(s.targets) == 1 and isinstance(s.targets[0], ast.Name)
+                    and isinstance(s.value, ast.Name)):
+                continue
+            x, y = s.targets[0].id, s.value.id
+            if x == y or y in params or y in ('self', 'cls'):
+                continue
+            before, after = body[:i], body[i + 1:]
+            if y not in bound_names(before):
+                continue
+            if any(isinstance(n, ast.Name) and n.id == y for o in after for n in ast.walk(o)):
+                continue
+            if any(isinstance(n, ast.Name) and n.id == x for o in before for n in ast.walk(o)):
+                continue
+            # y must be a plain local: never a loop/with/except variable whose scope games could matter
+            if _contains(before, (ast.Global, ast.Nonlocal)):
+                continue
+            new_before = [_Subst({y: x}).visit(copy.deepcopy(o)) for o in before]
+            body = new_before + after
+            changed = True
+            break
+    return body
+
+
 def alpha_rename(fn, keep=('self', 'cls')):
     """parameters (except self/cls and keyword-only ones, whose names are part of the call interface) and local
     variables renamed v0, v1, ... in order of first binding"""
@@ -1016,6 +1048,7 @@ def canonical_function(tree, cls, name, keep=lambda n: False, rename=False, temp
         for _ in range(3):
             before = ast.dump(ast.Module(body=fn.body, type_ignores=[]))
             fn.body = split_tuple_assign(fn.body)
+            fn.body = coalesce_copies(fn.body, [a.arg for a in fn.args.args + fn.args.kwonlyargs])
             fn.body = inline_pure_multi(fn.body)
             fn.body = inline_temps(fn.body)
             if ast.dump(ast.Module(body=fn.body, type_ignores=[])) == before:
